@@ -123,6 +123,9 @@ func (c pcase) options() []resource.Option {
 	case c.Spec == nil:
 	case c.NoDup:
 		opts = append(opts, resource.WithNoDuplicates())
+	case (len(c.Ops)+len(c.Writes))%2 == 1:
+		// the general route: any Comparer (chosen by the shape of the case, so a replay takes the same route)
+		opts = append(opts, resource.WithEquivalence(resource.ComparerFunc(c.Spec.build())))
 	default:
 		opts = append(opts, resource.WithMessageEquivalence(c.Spec.build()))
 	}
@@ -712,7 +715,7 @@ func (g *gen) pcaseInclude() pcase {
 
 func runPull(f lib.Flags, res *lib.Result, drv *lib.Driver, ms *monitors) {
 	tie := res.Tie("pull-equivalence", "K1",
-		"random runs of Value.Pull (initial value or none, 1-6 Sets) and Collection.Pull (1-7 Add/Update/Delete on two ids) with backpressure, equivalence = none | WithNoDuplicates | Equal() | Equal(tolerances around the written differences), read mask = none | 1-3 top-level fields; each write is the previous value mutated in 0-2 places; every third run is a Collection.Pull with WithInclude(float field gt/lt/ge threshold), equivalence none | exact | FloatValueApprox around the written steps, writes nudging the compared field, threshold on / just below / just above a written value, optional read mask (with or without the compared field). The model gets the event values the code produced and must reproduce the delivered/suppressed decision of every event. Non-trivial: distinct runs with an equivalence configured")
+		"random runs of Value.Pull (initial value or none, 1-6 Sets) and Collection.Pull (1-7 Add/Update/Delete on two ids) with backpressure, equivalence = none | WithNoDuplicates | Equal() | Equal(tolerances around the written differences) configured through WithMessageEquivalence or WithEquivalence(Comparer), read mask = none | 1-3 top-level fields; each write is the previous value mutated in 0-2 places; every third run is a Collection.Pull with WithInclude(float field gt/lt/ge threshold), equivalence none | exact | FloatValueApprox around the written steps, writes nudging the compared field, threshold on / just below / just above a written value, optional read mask (with or without the compared field). The model gets the event values the code produced and must reproduce the delivered/suppressed decision of every event. Non-trivial: distinct runs with an equivalence configured")
 	g := &gen{r: lib.NewRand(f.Seed + 104729)}
 	n := f.N(500, 6000)
 	for i := 0; i < n; i++ {
